@@ -21,25 +21,25 @@ FILES = {
     "internal/index/index.go": ["C02", "C01"],
     "internal/sort/sorter.go": ["C03"],
     "internal/grouper/grouper.go": ["C04", "C05"],
-    "internal/icolumn/column.go": ["C02", "C03", "C04", "C09", "C13"],
+    "internal/icolumn/column.go": ["C02", "C10", "C03", "C04", "C09", "C13"],
     "internal/icolumn/filters.go": ["C02"],
     "internal/icolumn/filters_gen.go": ["C02"],
     "internal/icolumn/aggregations.go": ["C04"],
     "internal/icolumn/column_gen.go": ["C06", "C04", "C09", "C03", "C01"],
-    "internal/fcolumn/column.go": ["C02", "C03", "C04", "C09", "C13", "C14"],
+    "internal/fcolumn/column.go": ["C02", "C10", "C03", "C04", "C09", "C13", "C14"],
     "internal/fcolumn/filters.go": ["C02"],
     "internal/fcolumn/filters_gen.go": ["C02"],
     "internal/fcolumn/aggregations.go": ["C04"],
     "internal/fcolumn/column_gen.go": ["C06", "C04", "C09", "C03"],
-    "internal/bcolumn/column.go": ["C02", "C03", "C04", "C09", "C13"],
+    "internal/bcolumn/column.go": ["C02", "C10", "C03", "C04", "C09", "C13"],
     "internal/bcolumn/filters_gen.go": ["C02"],
     "internal/bcolumn/aggregations.go": ["C04"],
     "internal/bcolumn/column_gen.go": ["C06", "C04", "C09", "C03"],
-    "internal/scolumn/column.go": ["C02", "C03", "C04", "C06", "C09", "C13", "C14", "C01"],
+    "internal/scolumn/column.go": ["C02", "C10", "C03", "C04", "C06", "C09", "C13", "C14", "C01"],
     "internal/scolumn/filters.go": ["C02", "C18"],
     "internal/scolumn/filters_gen.go": ["C02"],
     "internal/scolumn/view.go": ["C09", "C01"],
-    "internal/ecolumn/column.go": ["C17", "C02", "C03", "C04", "C06", "C09", "C13"],
+    "internal/ecolumn/column.go": ["C17", "C02", "C10", "C03", "C04", "C06", "C09", "C13"],
     "internal/ecolumn/filters.go": ["C17", "C02", "C18"],
     "internal/ecolumn/filters_gen.go": ["C17", "C02"],
     "internal/ecolumn/bitset.go": ["C17", "C18"],
